@@ -198,6 +198,10 @@ func (c07) Cases(tier string, seed uint64) []fw.Case {
 		tags := []string{"tc-" + lf.name}
 		add("lists", payload{Name: lf.name, Src: lf.without, Alt: lf.with, Seed: r.Next(), K: 4}, tags...)
 	}
+	// (6b) parentheses around single nodes in the positions which analyzer and back ends treat specially
+	for _, mf := range meaningForms {
+		add("meaning", payload{Name: mf.name, Seed: r.Next()})
+	}
 	// (7) statement forms and the shipped corpus: layout invariance
 	ks := 12
 	if thorough {
@@ -610,6 +614,8 @@ func (c07) Run(c fw.Case) (res fw.Result) {
 		w.stmt()
 	case "src":
 		w.explicit()
+	case "meaning":
+		w.meaning()
 	default:
 		return fw.Result{Verdict: fw.Inconclusive, Why: "unknown case kind " + c.Kind, Cover: []string{"harness-selfcheck-failed"}}
 	}
@@ -686,7 +692,7 @@ func (c07) Finalize(tier string, results []fw.Result, coverage map[string]any) s
 	coverage["nontrivial_by_workload"] = nontriv
 	coverage["cases_by_workload"] = total
 	var missing []string
-	for _, g := range []string{"pairs", "triples", "prepost", "random", "value", "vpairs", "vassign", "lists", "stmt", "wblock", "vblock", "spell", "litdirect", "vspell", "stmtspell"} {
+	for _, g := range []string{"pairs", "triples", "prepost", "random", "value", "vpairs", "vassign", "lists", "meaning", "stmt", "wblock", "vblock", "spell", "litdirect", "vspell", "stmtspell"} {
 		if total[g] > 0 && nontriv[g] == 0 {
 			missing = append(missing, g)
 		}
